@@ -16,7 +16,11 @@ states in every spelling (tuples of floats / 0-dim tensors / 1-element tensors /
 generator and instrument in both dtypes, the jump models at zero intensity (0 and 0.0) and at a positive one (runs without jumps driven by a supplied
 engine also against the model, op gen); a SECOND dtype request on an instrument that already carries an explicit dtype (constructor argument or an
 earlier cast) and has been simulated in it: the existing buffers follow at once (every spelling, to(tensor), to(instrument), a cast of a derivative
-written on the instrument; a device-only call afterwards changes nothing), also replayed in the system model.
+written on the instrument; a device-only call afterwards changes nothing), also replayed in the system model; INTEGER-typed initial states (Python
+ints / bools, int64 / int32 / bool tensors, tuple or bare, mixed with floats) with the dtype unset (under both global defaults) and set, for every
+generator and instrument: float series of the requested / default dtype starting at that number; the functional form and the instrument with the
+SAME arguments (asymmetric, boundary-admissible and inadmissible parameter sets, random ones): simulate() succeeds iff the functional does, and
+under the same seed registers the very series the functional returns.
 correspondence with the system model (Model/InstrSys.lean, op "instr_sys", theorems Lemmas/C11Buffers.lean): every instrument session
 (repeated simulate() with changing n_paths / horizon on every primary class and dtype, user register_buffer calls in between that
 overwrite a simulated buffer with another shape) is replayed in the model; after every call the buffers' names, dtypes, shapes, the
@@ -1101,6 +1105,7 @@ def check(ctx):
              "+ 3 constructor forms x 8 classes x global default float32 / float64 x before / after simulate (also replayed in the system model); a second request (19 spellings) "
              "on an instrument with an explicit dtype (2 constructor forms, 4-6 earlier casts) x 8 classes x both global defaults, after (always) / before (a third) the first "
              "simulate, device-only calls in between (system model too); non-default initial states in 7-9 spellings x 2 dtypes x 9 generators and 8 instruments, jump models at "
-             "intensity 0 / 0.0 / 5; user classes derived from "
+             "intensity 0 / 0.0 / 5; integer-typed initial states in 7-9 spellings x dtype unset / float32 / float64 x 9 generators and 8 instruments; instrument vs "
+             "functional on the same arguments (iff + identical series; asymmetric / boundary / inadmissible parameter rows and random ones); user classes derived from "
              "the 8 classes overriding default_init_state (3 forms) simulated without / with init_state, directly and through a derivative; every case "
              "non-trivial; distinct = sha1 of canonical case")
